@@ -142,12 +142,13 @@ def _mc(ctx):
         # implementation-shaped layer refines the contract
         runs = [("RRConfigs", "McInstSets", g2, ["k0"], 4 if q else 5, 2 if q else 3, 2),
                 ("WRConfigs", "McInstSets", g2, ["k0"], 3 if q else 4, 2, 2),
-                # (three generations: the same instances reported twice come out in the same order or in another one)
-                ("HashConfigs", "McInstSets", g2, ["k0", "k1"], 3 if q else 4, 3, 2 if q else 3)]
+                ("HashConfigs", "McInstSets", g2, ["k0", "k1"], 3 if q else 4, 2, 2 if q else 3),
+                # three generations: the same instances reported twice come out in the same order or in another one
+                ("HashConfigs", "AgainInstSets", g2, ["k0"], 3, 3 if q else 4, 2)]
         if not q:
             runs.append(("RRConfigs", "McInstSets", g3, ["k0"], 4, 2, 2))
         for (cf, ins, pr, ks, ms, mg, hr) in runs:
-            jobs[cf + str(len(pr))] = ex.submit(ctx.tlc_mc, "LoadBalanceImpl_MC", impl_cfg(cf, ins, pr, ks, ms, mg, hrange=hr),
+            jobs[cf + ins + str(len(pr))] = ex.submit(ctx.tlc_mc, "LoadBalanceImpl_MC", impl_cfg(cf, ins, pr, ks, ms, mg, hrange=hr),
                                  label="implementation layer refines contract, %s" % cf, timeout=1500, workers=w)
         # negative controls: the model is able to find what the property forbids
         jobs["neg-rr"] = ex.submit(ctx.tlc_mc, "LoadBalanceImpl_MC", impl_cfg("RRConfigs", "McInstSets", g2, ["k0"], 3, 2, atomic=False),
@@ -279,8 +280,13 @@ def _sig(seg, idx, kind):
     else:
         obs = "non-member"
     totw = sum(x["w"] for x in cur)
-    return {"kind": kind, "policy": seg[0]["cfg"]["policy"], "obs": obs, "n": min(len(cur), 3),
-            "totw": 0 if totw == 0 else 1, "zero": any(x["w"] == 0 for x in cur) and totw > 0}
+    sig = {"kind": kind, "policy": seg[0]["cfg"]["policy"], "obs": obs, "n": min(len(cur), 3),
+           "totw": 0 if totw == 0 else 1, "zero": any(x["w"] == 0 for x in cur) and totw > 0}
+    reps = [x for x in seg[:idx] if x.get("ev") == "rep"]
+    if seg[0]["cfg"]["policy"] in ("ipHash", "headerHash") and obs == "member" and reps and \
+            (reps[-1].get("same") or not any(x["t"] for x in reps[-1]["insts"])):
+        sig["after_rebuild_over_unchanged_list"] = True      # the key went to another server of the same list
+    return sig
 
 
 def _nontrivial(ctx, seg):
@@ -316,6 +322,38 @@ def _schedules(segs):
                 if m > e["d"] and len(_lists(seg, i)) >= 2:
                     crossed += 1
     return held, crossed
+
+
+def _rebuilds(ev):
+    """hash policies: requests whose key had been sent to a server of the current list before the balancer was rebuilt
+    over the unchanged list (>= 2 servers) - by the kind of rebuild"""
+    n = {"static_again": 0, "same_instances_same_order": 0, "same_instances_other_order": 0}
+    for _st, seg in _segments(ev):
+        cfg = seg[0]["cfg"]
+        if cfg["policy"] not in ("ipHash", "headerHash"):
+            continue
+        static, size, kind, seen, carried, prev = True, len(cfg["static"]), None, set(), set(), None
+        for e in seg[1:]:
+            if e.get("ev") == "rep":
+                tagged = sorted((x["id"], x["w"]) for x in e["insts"] if x["t"])
+                if not tagged:
+                    unchanged, kind = static, "static_again"
+                    static, size = True, len(cfg["static"])
+                else:
+                    unchanged, kind = (not static and tagged == prev and bool(e.get("same"))), "same_instances_same_order"
+                    if not static and tagged == prev and not e.get("same") and seen:
+                        n["same_instances_other_order"] += 1
+                    static, size = False, len(tagged)
+                prev = tagged
+                carried = (carried | seen) if unchanged else set()
+                seen = set()
+            elif e.get("ev") in ("ch", "hpick", "send") and e.get("r") not in (None, "nil"):
+                k = e.get("k")
+                if k in carried and size >= 2 and kind:
+                    n[kind] += 1
+                if k is not None:
+                    seen.add(k)
+    return n
 
 
 def _prev_send(seg, i):
@@ -414,6 +452,19 @@ def _vacuity(ctx, ev, held, crossed, what):
             ctx.inconclusive("%s: no request was retried in the situation '%s'" % (what, cls))
     if held == 0:
         ctx.inconclusive("%s: no request was held across a replacement of a non-empty list by a non-empty list" % what)
+    rb = _rebuilds(ev)
+    ctx.cov["c04_schedules"][what]["keys_seen_again_after_rebuild_over_unchanged_list"] = rb
+    ctx.log("%s: keyed requests after a rebuild of a hash balancer over the unchanged list: %s" % (what, jdump(rb)))
+    if rb["same_instances_other_order"]:
+        note = ("lead, not judged: when the registry reports the same instances again, useService ranges over a Go map, so the "
+                "rebuilt list can hold the same servers in another order and ipHash / headerHash then move keys to other servers; "
+                "the check demands stickiness across a rebuild only when the servers come out in the same order (or the static "
+                "list is fallen back to again)")
+        if note not in ctx.notes:
+            ctx.notes.append(note)
+    if what == "random traces" and rb["static_again"] == 0:
+        ctx.inconclusive("%s: no key of a hash policy was requested before and after a rebuild of the balancer over the unchanged "
+                         "static list" % what)
     if any(e.get("ev") == "noage" and e.get("why") == "nocounter" for e in ev):
         note = ("the round robin balancer keeps no single integer field that counts its selections: balancers with earlier "
                 "selections were not produced")
